@@ -3,6 +3,8 @@ package progress
 import (
 	"sync/atomic"
 	"time"
+
+	"github.com/form3tech-oss/f1/v2/internal/verifhook"
 )
 
 type IterationDurationsSnapshot struct {
@@ -34,8 +36,11 @@ type IterationDurations struct {
 }
 
 func (i *IterationDurations) Add(nanoseconds int64) {
+	verifhook.Yield("progress.add.begin")
 	i.sum.Add(nanoseconds)
+	verifhook.Yield("progress.add.mid")
 	i.count.Add(1)
+	verifhook.Yield("progress.add.counted")
 
 	if nanoseconds > i.max.Load() {
 		i.max.Store(nanoseconds)
@@ -100,9 +105,13 @@ func (d *DurationStats) Record(nanoseconds int64) {
 }
 
 func (d *DurationStats) CollectLifetime() (IterationDurationsSnapshot, IterationDurationsSnapshot) {
+	verifhook.Yield("progress.collect.begin")
 	running := d.running.Snapshot()
+	verifhook.Yield("progress.collect.read")
 	d.lifetime.Update(&d.running)
+	verifhook.Yield("progress.collect.merge")
 	d.running.Reset()
+	verifhook.Yield("progress.collect.reset")
 
 	return running, d.lifetime.Snapshot()
 }
